@@ -23,9 +23,9 @@ class PROP(Prop):
     title = "executetask sets the completion event on every exit edge and closes the channel exactly once; _local_schedulexec waits, refuses only the new channel, clears and hands over; the mailbox is overwritten only after the previous task finished"
     design_ref = "DESIGN.md section 4, C14"
     targets = [G + "executetask", G + "_local_schedulexec", W + "_try_send_to_primary_thread", W + "integrate_as_primary_thread",
-               f"{GB}:Reply.run",     # an interrupted body (KeyboardInterrupt re-raised by executetask) is contained by the task wrapper: the main thread goes on serving
+               f"pool::{GB}:Reply.run",     # an interrupted body (KeyboardInterrupt re-raised by executetask) is contained by the task wrapper: the main thread goes on serving
                "term::" + G + "serve"]    # the state _local_schedulexec relies on (pool, completion event set = "no previous task") is published before the receiver thread exists
-    extra_worlds = {"term": lambda w: (__import__("contracts.terminate", fromlist=["x"]).declare_worker_termination(w), __import__("contracts.terminate", fromlist=["x"]).declare_serve(w))}
+    extra_worlds = {"pool": lambda w: cp.declare(w), "term": lambda w: (__import__("contracts.terminate", fromlist=["x"]).declare_worker_termination(w), __import__("contracts.terminate", fromlist=["x"]).declare_serve(w))}
     heavy = {G + "executetask": 8, W + "integrate_as_primary_thread": 4}
     assumptions = [
         "compile/exec/the remote function are opaque user code: return, or raise an arbitrary Exception, KeyboardInterrupt, SystemExit or EOFError; they do not touch the gateway's completion event",
